@@ -1509,3 +1509,44 @@ def rule_absentmask(ctx) -> RuleResult:
                        f"the guard '{norm(site.test)[:80]}' that turns the count mask on does not consider {reason}: such slots have no member, "
                        "so without the mask they show the reduction's identity (eager NaN, chunked 0 or -inf for max) and the user's fill_value is ignored")
     return res
+
+
+# ---------------------------------------------------------------------------------------------
+# R-PASSTHROUGH[options] (C05, C16, C02): the xarray entry point hands the user's options to groupby_reduce unchanged.
+# xarray_reduce collects the options in a dict and its per-variable wrapper forwards them with **kwargs.  The wrapper may rename `func` (the
+# skipna convention) but may not rewrite any option on the way: a store `kwargs[<name>] = ...` (or a pop / del / update) inside the wrapper
+# silently changes min_count / fill_value / sort / ... for one entry point only -- xarray_reduce and groupby_reduce then disagree on the same
+# request.
+def rule_passthrough_options(ctx) -> RuleResult:
+    res = RuleResult("R-PASSTHROUGH[options]", "the xarray wrapper forwards the options it was given to groupby_reduce unchanged", min_instances=1)
+    cands = [f for q, f in ctx.prog.funcs.items() if q.startswith("xarray.xarray_reduce.") and any(isinstance(c, ast.Call) and norm(c.func) == "groupby_reduce" for c in ast.walk(f.node))]
+    if not cands:
+        raise AnalysisError("xarray.xarray_reduce: the nested wrapper that calls groupby_reduce was not found (anchor)")
+    for f in cands:
+        node = f.node
+        kwname = node.args.kwarg.arg if getattr(node.args, "kwarg", None) else None
+        call = next(c for c in ast.walk(node) if isinstance(c, ast.Call) and norm(c.func) == "groupby_reduce")
+        forwards = kwname is not None and any(k.arg is None and norm(k.value) == kwname for k in call.keywords)
+        res.inst(f"{f.qualname}: groupby_reduce(…, **{kwname}) forwards the collected options: {forwards}", f"{f.qualname}|forward")
+        if not forwards:
+            res.report(f"{f.qualname}|options-not-forwarded", f.where(call), f.qualname, "the wrapper no longer forwards the collected options with **kwargs")
+            continue
+        writes = []
+        for x in walk_own(node):
+            if isinstance(x, (ast.Assign, ast.AugAssign)):
+                for t in (x.targets if isinstance(x, ast.Assign) else [x.target]):
+                    if isinstance(t, ast.Subscript) and isinstance(t.value, ast.Name) and t.value.id == kwname:
+                        writes.append((x, norm(t.slice)))
+                    if isinstance(t, ast.Name) and t.id == kwname:
+                        writes.append((x, "<rebound>"))
+            if isinstance(x, ast.Delete) and any(isinstance(t, ast.Subscript) and norm(t.value) == kwname for t in x.targets):
+                writes.append((x, "<del>"))
+            if isinstance(x, ast.Call) and isinstance(x.func, ast.Attribute) and isinstance(x.func.value, ast.Name) and x.func.value.id == kwname \
+                    and x.func.attr in ("pop", "update", "setdefault", "clear", "popitem"):
+                writes.append((x, f".{x.func.attr}(…)"))
+        res.inst(f"{f.qualname}: stores into the options dict before the call: {len(writes)}", f"{f.qualname}|writes")
+        for x, key in writes:
+            res.report(f"{f.qualname}|option-rewritten|{key}", f.where(x), f.qualname,
+                       f"'{norm(x)[:60]}' rewrites the option {key} inside the per-variable wrapper: xarray_reduce then runs groupby_reduce with another value than the caller "
+                       "gave (min_count dropped for non-skipping reductions, say), so the two entry points answer the same request differently")
+    return res
